@@ -52,7 +52,8 @@ def suite_convert(ctx, case):
     for ci, meth, arg, d in case['calls']:
         conv = convs[ci]; uc = ucs[ci]
         sub = dict(case, calls=[[ci, meth, arg, d]])
-        x = np.array(arg, dtype=float) if isinstance(arg, list) else float(arg)
+        if isinstance(arg, list): x = np.array(arg, dtype=int) if all(isinstance(v, int) for v in arg) else np.array(arg, dtype=float)
+        else: x = arg if isinstance(arg, int) else float(arg)
         x_before = np.array(x, dtype=float).copy() if isinstance(x, np.ndarray) else None
         try:
             q = call(uc, meth, x, d)
@@ -83,6 +84,16 @@ def suite_convert(ctx, case):
         except Exception:
             dim_ok = unit_ok = False
         ctx.pred('convert', sub, bool(dim_ok) and unit_ok, '%s returned units %s' % (meth, getattr(q, 'units', None)), key='C17:units:' + meth)
+        # the SAME array object converted again after the caller changed it in place (a reused work buffer, k *= 2)
+        if isinstance(x, np.ndarray) and x.dtype.kind == 'f' and x.size:
+            try:
+                buf = x.copy(); first = mag(call(uc, meth, buf, d)).copy()
+                buf *= 2.0; buf[0] += 0.125
+                second = mag(call(uc, meth, buf, d)); fresh = np.atleast_1d(textbook(meth, conv, buf.copy(), d))
+                okb = second.shape == fresh.shape and bool(np.all(np.abs(second - fresh) <= 1e-12 * np.abs(fresh) + atol))
+            except Exception as e:
+                okb = False
+            ctx.pred('convert', sub, okb, '%s: converting an array, changing it in place and converting it again returns the value of the OLD contents' % meth, key='C17:formula:' + meth)
         # linearity / affinity and element-wise behaviour
         a = case['a']; y = xs[::-1].copy() * 0.37 + 0.11
         try:
@@ -120,7 +131,11 @@ def generate(ctx):
         calls = []
         for _ in range(rng.randint(4, 10)):
             meth = rng.choice(METHODS)
-            arg = float('%.8g' % (10 ** rng.uniform(-3, 2))) if rng.random() < 0.6 else [float('%.8g' % (10 ** rng.uniform(-3, 2))) for _ in range(rng.randint(2, 6))]
+            c0 = rng.random()
+            if c0 < 0.5: arg = float('%.8g' % (10 ** rng.uniform(-3, 2)))
+            elif c0 < 0.6: arg = rng.randint(1, 40)                                              # a Python int
+            elif c0 < 0.72: arg = [rng.randint(1, 40) for _ in range(rng.randint(2, 6))]          # an integer-typed array (np.arange(1, 5))
+            else: arg = [float('%.8g' % (10 ** rng.uniform(-3, 2))) for _ in range(rng.randint(2, 6))]
             calls.append([rng.randrange(len(convs)), meth, arg, float('%.6g' % rng.uniform(0.3, 3.0))])
         case = {'convs': convs, 'calls': calls, 'a': float('%.4g' % rng.uniform(-2, 3))}
         ctx.case('convert', case, True, tags=['nconv:%d' % len(convs)] + ['m:' + c[1] for c in calls] + ['dcu:' + c['dc_unit'] for c in convs] + ['ecu:' + c['ec_unit'] for c in convs])
